@@ -516,8 +516,15 @@ class Charge:
         id_list : Sequence of int
             List of particle ids: ``[0, 12, 321]``
         """
+        was_empty: bool = bool(self._frame.empty)
+
         if id_list:
             # TODO: Check carefully if 'inplace' is needed. This could break lot of things.
             self._frame.query(f"index not in {id_list}", inplace=True)
         else:
             self._frame = self.EMPTY_FRAME.copy()
+
+        if not was_empty and self._frame.empty:
+            # All charges were stored in the frame, '_array' only contains the
+            # last array computed from the (now removed) charges
+            self._array = np.zeros_like(self._array)
